@@ -70,11 +70,11 @@ Proof.
   unfold dry_guarded in E. apply andb_true_iff in E. destruct E as [Ep Ew].
   pose proof (pipes_dry_guarded_k tb PLibcst Ep) as Hp. pose proof (writers_dry_guarded_k tb SSetupPy Ew) as Hw.
   unfold toy_run, run, manifests_untouched, phase1_outs, w_manifest_K, toy_codemod, toy_cfg, with_dry.
-  cbn -[has_guard writer_guarded] in *. rewrite Hp.
-  split.
-  - repeat match goal with |- context [has_guard ?g ?l] => destruct (has_guard g l) end; reflexivity.
-  - repeat match goal with |- context [has_guard ?g ?l] => destruct (has_guard g l) end;
-      cbn -[writer_guarded]; rewrite ?Hw; cbn; discriminate.
+  destruct (t_diff tb) eqn:Ed; cbn -[has_guard writer_guarded t_diff] in *; unfold diff_base; rewrite Hp, ?Ed; cbn -[has_guard writer_guarded];
+  (split;
+   [ repeat match goal with |- context [has_guard ?g ?l] => destruct (has_guard g l) end; reflexivity
+   | repeat match goal with |- context [has_guard ?g ?l] => destruct (has_guard g l) end;
+       cbn -[writer_guarded]; rewrite ?Hw; cbn; discriminate ]).
 Qed.
 Theorem C04_dry_report_refuted_manifest : C04_dry_report_refuted_statement run_tables_v.
 Proof. exact (C04_dry_report_refuted_all run_tables_v). Qed.
